@@ -116,6 +116,23 @@ theorem c46_no_dead_timer {s : St} (h : Reach s) (j : Nat) (hj : j < s.n) (ht : 
     0 < (s.hs j).rA + (s.hs j).rB :=
   (inv_reach h).i1 j hj ht
 
+/-! ## progress: a reconnect attempt is never more than four enabled steps away -/
+
+/-- Liveness under fair scheduling, as a bounded-distance statement. While the service runs and no service call is
+in progress, for every live handler whose peer is disconnected there is a schedule of AT MOST FOUR events, all of
+them internal to that handler (delivery of the owed Disconnected notification, its pending `startIfDisconnected`
+goroutine, expiry of its timer, its reconnect goroutine calling / returning from `host.Connect` — no service call,
+no change of connectedness, nothing of another handler), each enabled when its turn comes, that ends with
+`host.Connect` being called for the peer with a live context. So a scheduler that eventually runs enabled
+goroutines / fires armed timers / delivers owed notifications makes a reconnect attempt happen; combined with
+`c46_scheduled` (the distance is always defined) and `c46_delay_range` (the timer in that schedule was armed with
+a delay in (0, 10 min]). -/
+theorem c46_progress {s : St} (h : Reach s) (hrun : s.state = .running) (hidle : s.busy = .idle)
+    (j : Nat) (hj : j < s.n) (hlive : (s.hs j).cancelled = false) (hdisc : s.conn (s.hs j).peer = false) :
+    ∃ evs s', evs.length ≤ 4 ∧ (∀ e ∈ evs, Internal j (s.hs j).peer e = true) ∧ run s evs = some s' ∧
+      s'.dials = (j, false) :: s.dials :=
+  c46_progress_aux h hrun hidle j hj hlive hdisc
+
 /-! ## after stop / remove: quiescence -/
 
 /-- After `Stop` has returned, every handler (present or removed earlier) is stopped for good. -/
